@@ -37,6 +37,7 @@ type scope struct {
 	terms []int
 	ufs   []string
 	lines []string
+	apps  int // number of injective-family applications registered in this scope
 }
 
 type Solver struct {
@@ -55,13 +56,39 @@ type Solver struct {
 	Time    time.Duration
 	Errors  int
 	FallbackQueries int
+	Restarts int
+	IntQueries int
+	OneShot  bool
 	log     io.Writer
 	timeout int // ms
 	dead    bool
 	pendingAx []*Term
+	injApps   []*Term
 }
 
 func NewSolver(kind SolverKind, ts *TermStore, timeoutMs int) (*Solver, error) {
+	return NewSolverMode(kind, ts, timeoutMs, false)
+}
+
+func NewSolverMode(kind SolverKind, ts *TermStore, timeoutMs int, oneShot bool) (*Solver, error) {
+	s := &Solver{Kind: kind, ts: ts, OneShot: oneShot, defined: map[int]bool{}, ufDecl: map[string]bool{}, scopes: []scope{{}}, timeout: timeoutMs}
+	if f := os.Getenv("SYMGO_SMTLOG"); f != "" {
+		w, _ := os.OpenFile(fmt.Sprintf("%s.%d.%d.smt2", f, os.Getpid(), kind), os.O_CREATE|os.O_WRONLY|os.O_APPEND, 0o644)
+		s.log = w
+	}
+	if err := s.start(); err != nil {
+		return nil, err
+	}
+	return s, nil
+}
+
+// start launches the solver process and sends the preamble.
+func (s *Solver) start() error {
+	kind, timeoutMs := s.Kind, s.timeout
+	if s.OneShot {
+		s.dead = false
+		return nil
+	}
 	var cmd *exec.Cmd
 	switch kind {
 	case Z3Old:
@@ -73,29 +100,51 @@ func NewSolver(kind SolverKind, ts *TermStore, timeoutMs int) (*Solver, error) {
 	}
 	in, err := cmd.StdinPipe()
 	if err != nil {
-		return nil, err
+		return err
 	}
 	out, err := cmd.StdoutPipe()
 	if err != nil {
-		return nil, err
+		return err
 	}
 	cmd.Stderr = cmd.Stdout
 	if err := cmd.Start(); err != nil {
-		return nil, err
+		return err
 	}
-	s := &Solver{Kind: kind, ts: ts, cmd: cmd, in: in, out: bufio.NewReaderSize(out, 1<<20),
-		defined: map[int]bool{}, ufDecl: map[string]bool{}, scopes: []scope{{}}, timeout: timeoutMs}
-	if f := os.Getenv("SYMGO_SMTLOG"); f != "" {
-		w, _ := os.OpenFile(fmt.Sprintf("%s.%d.%d.smt2", f, os.Getpid(), kind), os.O_CREATE|os.O_WRONLY|os.O_APPEND, 0o644)
-		s.log = w
-	}
+	s.cmd, s.in, s.out, s.dead = cmd, in, bufio.NewReaderSize(out, 1<<20), false
 	if kind != CVC5 {
 		s.send(fmt.Sprintf("(set-option :timeout %d)", timeoutMs))
 		s.send("(set-option :model.completion true)")
 	} else {
 		s.send("(set-logic ALL)")
 	}
-	return s, nil
+	return nil
+}
+
+// restart replaces the solver process (after a timeout or an error the old
+// one may be in a cancelled state in which it drops commands) and replays the
+// recorded assertion stack into the new one.
+func (s *Solver) restart() {
+	if s.OneShot {
+		return
+	}
+	if !s.dead {
+		s.in.Close()
+		s.cmd.Process.Kill()
+		s.cmd.Wait()
+	}
+	s.Restarts++
+	if err := s.start(); err != nil {
+		s.dead = true
+		return
+	}
+	for i, sc := range s.scopes {
+		if i > 0 {
+			s.send("(push 1)")
+		}
+		for _, l := range sc.lines {
+			s.send(l)
+		}
+	}
 }
 
 func (s *Solver) SetTimeout(ms int) {
@@ -106,7 +155,7 @@ func (s *Solver) SetTimeout(ms int) {
 }
 
 func (s *Solver) Close() {
-	if s.dead {
+	if s.dead || s.OneShot {
 		return
 	}
 	s.dead = true
@@ -118,6 +167,9 @@ func (s *Solver) Close() {
 func (s *Solver) send(line string) {
 	if s.log != nil {
 		io.WriteString(s.log, line+"\n")
+	}
+	if s.OneShot {
+		return
 	}
 	io.WriteString(s.in, line+"\n")
 }
@@ -143,6 +195,116 @@ func (s *Solver) Script() string {
 	return sb.String()
 }
 
+// runOneShot runs the current context in a fresh solver process.
+func (s *Solver) runOneShot(args []string, valueNames []string) (Result, string) {
+	script := s.Script() + "(check-sat)\n"
+	if len(valueNames) > 0 {
+		for i := 0; i < len(valueNames); i += 200 {
+			j := min(i+200, len(valueNames))
+			script += "(get-value (" + strings.Join(valueNames[i:j], " ") + "))\n"
+		}
+	}
+	f, err := os.CreateTemp("", "symgo-q-*.smt2")
+	if err != nil {
+		return Unknown, ""
+	}
+	defer os.Remove(f.Name())
+	f.WriteString(script)
+	f.Close()
+	start := time.Now()
+	ctx := exec.Command(args[0], append(args[1:], f.Name())...)
+	timer := time.AfterFunc(time.Duration(s.timeout+600000)*time.Millisecond, func() { ctx.Process.Kill() })
+	out, _ := ctx.CombinedOutput()
+	timer.Stop()
+	s.Time += time.Since(start)
+	txt := string(out)
+	if strings.Contains(txt, "(error") {
+		if !strings.Contains(txt, "model is not available") {
+			s.Errors++
+		}
+	}
+	lines := strings.Split(txt, "\n")
+	for i, l := range lines {
+		l = strings.TrimSpace(l)
+		if l == "unsat" {
+			return Unsat, ""
+		}
+		if l == "sat" {
+			return Sat, strings.Join(lines[i+1:], " ")
+		}
+	}
+	return Unknown, ""
+}
+
+// CheckModel checks the current context and, when satisfiable, returns the
+// values of the given terms (which must be defined in the context).
+func (s *Solver) CheckModel(terms []*Term) (Result, map[int]*big.Int) {
+	if !s.OneShot {
+		r := s.Check()
+		if r != Sat {
+			return r, nil
+		}
+		vals, err := s.Values(terms)
+		if err != nil {
+			return Sat, map[int]*big.Int{}
+		}
+		return Sat, vals
+	}
+	s.flushAxioms()
+	var names []string
+	var idx []*Term
+	res := map[int]*big.Int{}
+	for _, t := range terms {
+		if t.IsConst() {
+			res[t.ID] = t.Val
+			continue
+		}
+		names = append(names, tname(t))
+		idx = append(idx, t)
+	}
+	s.Queries++
+	r, txt := s.runOneShot([]string{"z3", "-smt2", fmt.Sprintf("-t:%d", s.timeout)}, names)
+	if r != Sat {
+		return r, nil
+	}
+	// several get-value answers are concatenated; parse each "((..))" group
+	vals := parseValuesMulti(txt)
+	if len(vals) == len(idx) {
+		for i, v := range vals {
+			res[idx[i].ID] = v
+		}
+	}
+	return Sat, res
+}
+
+func parseValuesMulti(txt string) []*big.Int {
+	var out []*big.Int
+	depth := 0
+	start := -1
+	for i := 0; i < len(txt); i++ {
+		switch txt[i] {
+		case '|':
+			j := strings.IndexByte(txt[i+1:], '|')
+			if j < 0 {
+				return out
+			}
+			i += j + 1
+		case '(':
+			if depth == 0 {
+				start = i
+			}
+			depth++
+		case ')':
+			depth--
+			if depth == 0 && start >= 0 {
+				out = append(out, parseValues(txt[start:i+1])...)
+				start = -1
+			}
+		}
+	}
+	return out
+}
+
 // Fallback runs the current context one-shot in other solvers (cvc5, then
 // z3 5.1). If valueNames is non-empty and the answer is sat, the values are
 // returned as the raw get-value text.
@@ -163,10 +325,14 @@ func (s *Solver) Fallback(timeoutMs int, valueNames []string) (Result, string, s
 		args []string
 	}
 	cands := []cand{
+		{"z3-4.8.12", []string{"z3", "-smt2", fmt.Sprintf("-t:%d", timeoutMs), f.Name()}},
 		{"cvc5-1.0", []string{"cvc5", "--lang=smt2", "--produce-models", fmt.Sprintf("--tlimit=%d", timeoutMs), f.Name()}},
 		{"z3-5.1.0", []string{"z3-new", "-smt2", fmt.Sprintf("-t:%d", timeoutMs), f.Name()}},
 	}
-	for _, c := range cands {
+	for ci, c := range cands {
+		if ci == 0 && s.OneShot {
+			continue // already tried
+		}
 		start := time.Now()
 		ctx := exec.Command(c.args[0], c.args[1:]...)
 		timer := time.AfterFunc(time.Duration(timeoutMs+5000)*time.Millisecond, func() { ctx.Process.Kill() })
@@ -206,6 +372,7 @@ func (s *Solver) Pop() {
 	for _, u := range sc.ufs {
 		delete(s.ufDecl, u)
 	}
+	s.injApps = s.injApps[:len(s.injApps)-sc.apps]
 	s.send("(pop 1)")
 }
 
@@ -275,6 +442,28 @@ func (s *Solver) define(t *Term) {
 	if t.Op == OpUF && s.Axioms != nil {
 		s.pendingAx = append(s.pendingAx, s.Axioms(t)...)
 	}
+	if t.Op == OpUF {
+		if fam, ok := injFamily(t.Name); ok {
+			// pairwise injectivity / range-disjointness with every application of
+			// the same family currently defined
+			for _, u := range s.injApps {
+				if fu, _ := injFamily(u.Name); fu != fam {
+					continue
+				}
+				if u.Name != t.Name {
+					s.pendingAx = append(s.pendingAx, s.ts.Not(s.ts.EqRaw(t, u)))
+					continue
+				}
+				var conj []*Term
+				for i := range t.Args {
+					conj = append(conj, s.ts.Eq(t.Args[i], u.Args[i]))
+				}
+				s.pendingAx = append(s.pendingAx, s.ts.Implies(s.ts.EqRaw(t, u), s.ts.And(conj...)))
+			}
+			s.injApps = append(s.injApps, t)
+			s.scopes[len(s.scopes)-1].apps++
+		}
+	}
 }
 
 func (s *Solver) flushAxioms() {
@@ -286,6 +475,15 @@ func (s *Solver) flushAxioms() {
 			s.sendCtx(fmt.Sprintf("(assert %s)", tname(a)))
 		}
 	}
+}
+
+// DefineOnly declares/defines t (and emits UF axioms) without asserting it.
+func (s *Solver) DefineOnly(t *Term) {
+	if t.IsConst() {
+		return
+	}
+	s.define(t)
+	s.flushAxioms()
 }
 
 func (s *Solver) Assert(t *Term) {
@@ -322,6 +520,11 @@ func (s *Solver) Check() Result {
 		return Unknown
 	}
 	s.flushAxioms()
+	if s.OneShot {
+		s.Queries++
+		r, _ := s.runOneShot([]string{"z3", "-smt2", fmt.Sprintf("-t:%d", s.timeout)}, nil)
+		return r
+	}
 	start := time.Now()
 	s.send("(check-sat)")
 	s.send(fmt.Sprintf("(echo \"%s\")", endMarker))
@@ -331,6 +534,7 @@ func (s *Solver) Check() Result {
 	if err != nil {
 		s.dead = true
 		s.Errors++
+		s.restart()
 		return Unknown
 	}
 	res := Unknown
@@ -338,6 +542,7 @@ func (s *Solver) Check() Result {
 		if strings.HasPrefix(l, "(error") {
 			s.Errors++
 			fmt.Fprintf(os.Stderr, "solver %s error: %s\n", s.Kind, l)
+			s.restart()
 			return Unknown
 		}
 	}
@@ -348,6 +553,10 @@ func (s *Solver) Check() Result {
 		case "unsat":
 			res = Unsat
 		}
+	}
+	if res == Unknown {
+		// timed out: the process may be left cancelled; start afresh
+		s.restart()
 	}
 	return res
 }
